@@ -61,7 +61,9 @@ def oracle(spec, ops):
     single = []
     for op in ops:
         if op[0] == "add":
-            single.extend(["add_single", c, "nd"] for c in op[1])
+            # same numeric container as the batch: index_of of a far measure may legitimately differ between a float32 array and the
+            # float64 array of the same numbers (distance ties in float32)
+            single.extend(["add_single", c, op[2] if len(op) > 2 else "nd"] for c in op[1])
         else:
             single.append(op)
     t2, _, _, _ = au.run_impl(spec, single)
